@@ -246,9 +246,14 @@ Section Engine.
                           <| i_exit := None |> <| i_qa := None |> <| i_qd := None |> <| i_dest := None |>).
 
   (* ---------- routing ---------- *)
+  (* simulation.nodes[d].id_number for nodes = [arrival node] + nodes 1..n + [exit node]: Python's negative indices count from
+     the end, the arrival node has no id_number (AttributeError), anything else is an IndexError *)
   Definition valid_dest (d : Z) : M Z :=
     n <- gets (fun s => Z.of_nat (length (nodes s))) ;;
-    if (d =? -1) || ((1 <=? d) && (d <=? n)) then ret d else fail E_NoNode.
+    if (1 <=? d) && (d <=? n) then ret d
+    else if (d =? -1) || (d =? n + 1) then ret (-1)
+    else if (- (n + 1) <=? d) && (d <=? -2) then ret (n + 2 + d)
+    else fail E_NoNode.
   (* JoinShortestQueue.next_node / LoadBalancing: the literal loop (== appends, < restarts), then the tie-break *)
   Fixpoint jsq_loop (lb : bool) (ds : list Z) (best : option Z) (acc : list Z) : M (list Z) :=
     match ds with
